@@ -173,7 +173,7 @@ pub fn record(args: &[String]) {
             } else {
                 match declared_excluded(case.fmt, &signed, kind) { Ok(e) => e, Err(e) => { out.emit(&json!({"format": case.name, "kind": kind, "setup_error": format!("exclusions: {e}")})); continue } }
             };
-            let mut emit_case = |op: &str, off: usize, len: usize, edited: Vec<u8>, excluded: bool, out: &mut Out| {
+            let emit_case = |op: &str, off: usize, len: usize, edited: Vec<u8>, excluded: bool, out: &mut Out| {
                 let (state, equal, detail) = match catch(std::panic::AssertUnwindSafe(|| read_bytes(ctx(&overlay), case.fmt, &edited))) {
                     Ok(Ok(r)) => { let rep = report(&r); (state_str(&r).to_string(), rep == base_report, failure_codes(&r).join(",")) }
                     Ok(Err(e)) => ("ReadErr".to_string(), false, err_kind(&e)),
